@@ -13,6 +13,8 @@ import (
 //	valid   a module of harness/common/gen.go (valid by construction)
 //	validx  the same with by-construction-valid additions: name section, custom sections, padded LEB128
 //	        section sizes, a data count section
+//	valid2  a module of the second generator (gen2.go): every value type, multi-value block types, tables,
+//	        bulk memory, references, SIMD lanes (valid by construction; engines compared with each other)
 //	mut     a structured mutation of a valid module (Mut names the operator)
 //	rand    random bytes (with or without header / section framing)
 //	probe   a directed input for one allocation site or decoder corner (Mut names it)
@@ -207,10 +209,15 @@ func setCount(body []byte, v uint32) []byte {
 
 // mutate applies one structured mutation operator; most keep the section framing consistent so that the
 // decoder's inner checks and the validator are reached.
-func mutate(m *c.ModSpec, rng *c.Rng) ([]byte, string) {
-	bin := m.Encode()
+func mutate(m *c.ModSpec, rng *c.Rng) ([]byte, string) { return mutateBin(m.Encode(), m, rng) }
+
+// mutateBin: m is nil for modules of the second generator (operators that need the ModSpec are replaced)
+func mutateBin(bin []byte, m *c.ModSpec, rng *c.Rng) ([]byte, string) {
 	secs := splitSections(bin)
 	op := rng.Intn(16)
+	if m == nil && op == 14 {
+		op = 3 + rng.Intn(6)
+	}
 	switch op {
 	case 0: // declared section size off
 		k := rng.Intn(len(secs))
@@ -340,7 +347,11 @@ func mutate(m *c.ModSpec, rng *c.Rng) ([]byte, string) {
 		secs[k].body = c.Cat(b[:n0], c.U32(uint32(len(ne))), ne, b[n0+n1+int(sz):])
 		return join(secs), fmt.Sprintf("locals(%d)", num)
 	case 13: // start section pointing at some function
-		idx := uint32(rng.Intn(len(m.Hosts) + len(m.Funcs) + 2))
+		nfn := 8
+		if m != nil {
+			nfn = len(m.Hosts) + len(m.Funcs) + 2
+		}
+		idx := uint32(rng.Intn(nfn))
 		st := sec{id: 8, body: c.U32(idx), size: -1}
 		for k, s := range secs {
 			if s.id > 8 && s.id != 12 || k == len(secs)-1 {
@@ -441,7 +452,7 @@ func probeInputs() []Input {
 	}
 }
 
-func genInputs(rng *c.Rng, nValid, nMut, nRand int, withProbes bool) []Input {
+func genInputs(rng *c.Rng, nValid, nValid2, nMut, nRand int, withProbes bool) []Input {
 	var ins []Input
 	add := func(class, mut string, b []byte) {
 		ins = append(ins, Input{Class: class, Mut: mut, Hex: hex.EncodeToString(b)})
@@ -460,7 +471,26 @@ func genInputs(rng *c.Rng, nValid, nMut, nRand int, withProbes bool) []Input {
 	if len(pool) == 0 {
 		pool = append(pool, newProgram(rng))
 	}
+	for i := 0; i < nValid2; i++ { // the structural/type-coverage generator (gen2.go)
+		add("valid2", "", genModule2(rng))
+	}
+	var pool2 [][]byte
+	for _, in := range ins {
+		if in.Class == "valid2" {
+			b, _ := hex.DecodeString(in.Hex)
+			pool2 = append(pool2, b)
+		}
+	}
 	for i := 0; i < nMut; i++ {
+		if len(pool2) > 0 && i%3 == 2 { // a third of the mutants come from the second generator's modules
+			src := pool2[rng.Intn(len(pool2))]
+			b, what := mutateBin(src, nil, rng)
+			if what == "noop" || bytes.Equal(b, src) {
+				b, what = mutateBin(src, nil, rng)
+			}
+			add("mut", "g2:"+what, b)
+			continue
+		}
 		m := pool[rng.Intn(len(pool))]
 		b, what := mutate(m, rng)
 		if what == "noop" || bytes.Equal(b, m.Encode()) {
